@@ -309,6 +309,22 @@ func wScenarios(prop, tier string, rng *rand.Rand) []wScenario {
 			return h
 		})
 	}
+	// everything a seed ever had signed is spent: restore, continue, restore again (the counter must still move past the spent outputs)
+	out = append(out, func(sink *Sink, rng *rand.Rand, scratch string) *wHist {
+		h := newWHist(sink, rng, scratch, prop, wCfg{fees: []uint{0}, feePct: []uint64{1}, homes: []int{0, 0}})
+		h.nontrivial = true
+		h.OpMint(0, 0, 8, true, 0)
+		h.OpSend(0, 0, 8, false, true, 0)
+		h.OpReceive(1, 0, false, 0)
+		h.OpRestore(0)
+		h.OpMint(0, 0, 8, true, 0)
+		h.OpMint(0, 0, 8, true, 0)
+		h.OpRestore(0)
+		if prop == "C19" {
+			h.OpCheck(0)
+		}
+		return h
+	})
 	// MintSwap for every Lightning outcome (C17)
 	for _, outcome := range []int{0, 1, 2} {
 		outcome := outcome
